@@ -38,15 +38,18 @@ TECHNIQUE = (
 META = {
     "explanation": (
         "R1: every front end - a function that obtains a markdown-it parser for a docutils-document renderer from create_md_parser "
-        "(directly, through a factory/cache wrapper or a helper that returns it) and calls its render - is followed, on every path to "
+        "(directly, through a factory/cache wrapper, a container or attribute it was stored in, or a helper that returns it) and calls its render - is followed, on every path to "
         "the normal exit, by the raw filter; the filter may sit in that function, in a helper that is always called afterwards, after "
-        "the call in the callers, or at the end of the renderer's render(). The filter is a branch taken exactly when the document's "
-        "raw_enabled is false (truth or ==/!= test; an identity test `is False` is rejected because 0 is a legal value; no extra "
-        "conjunct), looping over all docutils.nodes.raw of the whole document (traverse/findall, no descend=False), and on every "
+        "the call in the callers, or at the end of the renderer's render(). The filter is a branch taken whenever the document's "
+        "raw_enabled is false (the test is evaluated three-valued with the switch off and everything else unknown: a broader test such "
+        "as `not (raw and other)` is accepted, an extra conjunct is a violation; truth or ==/!= tests; an identity test `is False` is "
+        "rejected because 0 is a legal value), looping over all docutils.nodes.raw of the whole document (traverse/findall, no descend=False), and on every "
         "iteration replacing or removing the node - a skip is accepted only for detached nodes or a tautological type test, any other "
         "skip (by the node's content, a local derived from it, or configuration) is a violation; nodes are not removed while the lazy "
         "findall() generator walks the tree; the replacement can never be None (Element.replace(old, None) is a no-op: nullable "
-        "helpers such as create_warning need a guard with a fallback) and is a warning-level reporter message. "
+        "helpers such as create_warning need a guard with a fallback), is a warning-level reporter message, and is created inside the "
+        "loop - one message object per refused node (a hoisted message reports N refusals once and, being one node under several "
+        "parents, makes docutils' FilterMessages transform raise when report_level > 2). "
         "R2: no function reachable from a registered transform / post-transform / Sphinx event handler, or from what the entry calls "
         "after the filter, constructs nodes.raw (directly, through an alias or a package subclass); every construction is in a "
         "render-phase function or unreachable. Reachability includes the renderer's dynamic dispatch wherever it is written. "
@@ -64,7 +67,7 @@ META = {
     "not_decided": (
         "that third-party directives/roles honour the settings they are shown (docutils' raw/include/csv-table and Sphinx's "
         "literalinclude do, by reading); that every raw node built during rendering is attached to the tree when the filter runs; "
-        "whether one shared message object is reused for several raw nodes (a tree well-formedness matter, C03); the writer's own file "
+        "the writer's own file "
         "access (image embedding consults file_insertion_enabled itself); file reads that are not made by a directive (the inventory "
         "loader, fed from global-only configuration, is listed); a filter written as a side-effect comprehension (ANALYSIS-ERROR)"
     ),
@@ -359,22 +362,38 @@ class FrontEnd:
         self.renderer = renderer  # ClassInfo
 
 
-def _binding_sites(corpus: Corpus, fi: FunctionInfo, call: ast.Call, depth: int) -> list[tuple[FunctionInfo, ast.Call]]:
-    """Where the value of ``call`` gets bound to a local name: here (`x = call`), or - when a helper
-    returns it (directly or through a local) - at the helper's call sites, up to two levels."""
+def _render_calls_on(fi: FunctionInfo, texts: set[str]) -> list[ast.Call]:
+    return [c for c in _own_calls(fi) if isinstance(c.func, ast.Attribute) and c.func.attr == "render" and unparse(c.func.value) in texts]
+
+
+def _binding_sites(corpus: Corpus, fi: FunctionInfo, call: ast.Call, depth: int) -> list[tuple[FunctionInfo, set[str], ast.AST]]:
+    """Where the parser produced by ``call`` is held: (function, the expressions that denote it there, site).
+    `x = call`; `self.attr = call` / `cache[key] = call` (plus local aliases `x = cache[key]`, `x = cache.get(key)`);
+    or - when a helper returns it (directly, through a local or out of the container it stored it in) - the
+    helper's call sites, up to two levels."""
     p = parent(call)
-    if isinstance(p, ast.Assign) and len(p.targets) == 1 and isinstance(p.targets[0], ast.Name):
-        var = p.targets[0].id
-        returned = [n for n in fi.local_nodes() if isinstance(n, ast.Return) and isinstance(n.value, ast.Name) and n.value.id == var]
-        used = any(isinstance(c.func, ast.Attribute) and c.func.attr == "render" and isinstance(c.func.value, ast.Name) and c.func.value.id == var for c in _own_calls(fi))
-        if not returned or used:
-            return [(fi, call)]
+    texts: set[str] = set()
+    if isinstance(p, ast.Assign) and len(p.targets) == 1:
+        t = p.targets[0]
+        texts.add(unparse(t))
+        if not isinstance(t, ast.Name):
+            # aliases of the stored parser
+            for n in fi.local_nodes():
+                if isinstance(n, ast.Assign) and len(n.targets) == 1 and isinstance(n.targets[0], ast.Name):
+                    v = n.value
+                    if unparse(v) == unparse(t):
+                        texts.add(n.targets[0].id)
+                    elif isinstance(t, ast.Subscript) and isinstance(v, ast.Call) and isinstance(v.func, ast.Attribute) and v.func.attr in ("get", "setdefault", "__getitem__") and unparse(v.func.value) == unparse(t.value) and v.args and unparse(v.args[0]) == unparse(t.slice):
+                        texts.add(n.targets[0].id)
+        returned = [n for n in fi.local_nodes() if isinstance(n, ast.Return) and n.value is not None and unparse(n.value) in texts]
+        if not returned or _render_calls_on(fi, texts):
+            return [(fi, texts, call)]
     elif not isinstance(p, ast.Return):
-        raise Unsupported(f"{fi.module.site(call)}: the markdown-it parser is neither bound to a local name nor returned")
+        raise Unsupported(f"{fi.module.site(call)}: the markdown-it parser is neither stored nor returned")
     if depth >= 2:
         raise Unsupported(f"{fi.module.site(call)}: parser factory nested too deeply")
     g = get_callgraph(corpus)
-    out: list[tuple[FunctionInfo, ast.Call]] = []
+    out: list[tuple[FunctionInfo, set[str], ast.AST]] = []
     for cfi, ccall in g.callers().get(fi.fq, []):
         if cfi.is_lambda:
             raise Unsupported(f"{cfi.module.site(ccall)}: parser factory called from a lambda")
@@ -425,15 +444,10 @@ def front_ends(corpus: Corpus) -> tuple[list[FrontEnd], list[tuple[FunctionInfo,
             if ci is None or ci.fq not in rcls:
                 others.append((fi, call, unparse(r) if r is not None else "?"))
                 continue
-            for hfi, hcall in _binding_sites(corpus, fi, call, 0):
-                var = parent(hcall).targets[0].id  # type: ignore[union-attr]
-                renders = [
-                    c
-                    for c in _own_calls(hfi)
-                    if isinstance(c.func, ast.Attribute) and c.func.attr == "render" and isinstance(c.func.value, ast.Name) and c.func.value.id == var
-                ]
+            for hfi, texts, hsite in _binding_sites(corpus, fi, call, 0):
+                renders = _render_calls_on(hfi, texts)
                 if len(renders) != 1:
-                    raise Unsupported(f"{hfi.module.site(hcall)}: expected exactly one render call on `{var}`, found {len(renders)}")
+                    raise Unsupported(f"{hfi.module.site(hsite)}: expected exactly one render call on `{sorted(texts)[0]}`, found {len(renders)}")
                 fes.append(FrontEnd(hfi, call, renders[0], ci))
         return fes, others
 
@@ -442,6 +456,24 @@ def front_ends(corpus: Corpus) -> tuple[list[FrontEnd], list[tuple[FunctionInfo,
 
 # ---------------------------------------------------------------------------
 # R1 the raw filter
+
+
+def _eval3(e: ast.expr, switch: str, fi: FunctionInfo):
+    """Kleene evaluation of a test with ``switch`` off (False) and every other atom unknown (None)."""
+    if isinstance(e, ast.UnaryOp) and isinstance(e.op, ast.Not):
+        v = _eval3(e.operand, switch, fi)
+        return None if v is None else (not v)
+    if isinstance(e, ast.BoolOp):
+        vals = [_eval3(v, switch, fi) for v in e.values]
+        if isinstance(e.op, ast.And):
+            return False if any(v is False for v in vals) else (None if any(v is None for v in vals) else True)
+        return True if any(v is True for v in vals) else (None if any(v is None for v in vals) else False)
+    if isinstance(e, ast.Constant):
+        return bool(e.value)
+    atom, pol = _norm_atom(e, True)  # equality with a bool literal only; identity tests stay unknown
+    if _setting_root(atom, switch, fi) is not None:
+        return not pol  # the switch is False: `switch` -> False, `switch == False` -> True
+    return None
 
 
 def _is_nonempty_test(t: ast.expr, name: str) -> bool:
@@ -590,26 +622,34 @@ class Filter:
     def _analyse(self) -> None:
         fi, ifn = self.fi, self.ifnode
         cfg = get_cfg(fi)
-        atoms = _facts(ifn.test, True, identity=True)
         ident = _identity_tests(ifn.test, "raw_enabled", fi)
-        setting = [(e, pol) for e, pol in atoms if _setting_root(e, "raw_enabled", fi) is not None]
-        rest = [(e, pol) for e, pol in atoms if _setting_root(e, "raw_enabled", fi) is None]
-        if len(setting) != 1:
-            raise Unsupported(f"{fi.module.site(ifn)}: raw_enabled test `{short(ifn.test, 70)}` is not a conjunction with one raw_enabled atom")
-        e, pol = setting[0]
-        root = _setting_root(e, "raw_enabled", fi)
+        reads = [x for x in _leaves(ifn.test) if _setting_root(_norm_atom(x, True, identity=True)[0], "raw_enabled", fi) is not None]
+        if not reads:
+            raise Unsupported(f"{fi.module.site(ifn)}: raw_enabled test `{short(ifn.test, 70)}` is not built from plain truth tests of the switch")
+        roots = {unparse(_setting_root(_norm_atom(x, True, identity=True)[0], "raw_enabled", fi)) for x in reads}
+        if len(roots) != 1:
+            raise Unsupported(f"{fi.module.site(ifn)}: raw_enabled is read from several objects ({sorted(roots)})")
+        root = _setting_root(_norm_atom(reads[0], True, identity=True)[0], "raw_enabled", fi)
         self.root = unparse(root)
-        if pol:
-            # `if raw_enabled: ... else: <filter>`
-            if rest:
-                raise Unsupported(f"{fi.module.site(ifn)}: raw_enabled test with extra conditions in positive form")
+        # three-valued evaluation of the test with the switch off and everything else unknown:
+        # True -> the body runs whenever raw is disabled (possibly more often: harmless for this property),
+        # False -> the else branch does, unknown -> the filter depends on something besides the switch
+        val = _eval3(ifn.test, "raw_enabled", fi)
+        others = [x for x in _leaves(ifn.test) if x not in reads]
+        if val is True:
+            branch, edge = ifn.body, ("T", ifn)
+        elif val is False:
             branch, edge = ifn.orelse, ("F", ifn)
         else:
-            branch, edge = ifn.body, ("T", ifn)
+            # keep analysing the branch that holds the loop so that the other aspects are still judged
+            neg = any(not pol for e_, pol in _facts(ifn.test, True, identity=True) if _setting_root(e_, "raw_enabled", fi) is not None)
+            branch, edge = (ifn.body, ("T", ifn)) if neg or not ifn.orelse else (ifn.orelse, ("F", ifn))
         if ident:
             self.problems.append(("test", f"`{short(ident[0], 60)}` is an identity test: raw_enabled = 0 (a legal 'off' value; docutils' own defaults for the switches are the ints 1/0) is not `False`, so the filter is skipped and every raw node survives", ident[0]))
-        elif rest:
-            self.problems.append(("test", "the raw filter is additionally conditioned on " + " and ".join(("" if p else "not ") + short(x, 50) for x, p in rest) + ": with raw disabled and that condition false every raw node survives", ifn))
+        elif val is None:
+            self.problems.append(("test", "with raw disabled the raw filter still depends on " + ", ".join(f"`{short(x, 50)}`" for x in others[:3]) + f" (test `{short(ifn.test, 70)}`): when that makes the test fail every raw node survives", ifn))
+        elif others:
+            self.oks.append(("test", f"taken whenever {self.root}.settings.raw_enabled is false (also when {', '.join(short(x, 40) for x in others[:2])} says so: broader, which this property allows)", ifn))
         else:
             self.oks.append(("test", f"taken exactly when {self.root}.settings.raw_enabled is false", ifn))
         # the document the settings were read from must be a parameter or the renderer's document
@@ -803,6 +843,11 @@ class Filter:
                 continue
             if nullable == "unknown":
                 raise Unsupported(f"{fi.module.site(call)}: cannot tell whether the replacement `{short(w, 50)}` can be None")
+            # one message object per replaced node: a message created outside the loop is one node under many parents
+            if isinstance(w, ast.AST) and hasattr(w, "lineno") and not (lp.lineno <= w.lineno <= lp.end_lineno) and not isinstance(w, (ast.Name, ast.Constant)):
+                self.problems.append(("one-message-per-node", f"the replacement `{short(w, 60)}` is created once, outside the loop, and the same system_message object is put in place of every raw node: N refusals are reported by one warning, and a node that sits under several parents breaks docutils' message filtering (ValueError from FilterMessages when report_level > 2), aborting instead of processing the rest normally", w))
+            else:
+                self.oks.append(("one-message-per-node", "the replacement is created inside the loop, once per raw node", call))
             levels = _levels(w, fi, self.corpus)
             if levels is None:
                 raise Unsupported(f"{fi.module.site(call)}: the replacement `{short(new, 50)}` is not a reporter message the rule understands")
@@ -962,7 +1007,7 @@ def locate_filter(corpus: Corpus, fe: FrontEnd):
 
 @rule("C20.R1")
 def r1_filter_postdominates(corpus: Corpus, rep: Report, tier: str):
-    rep.rule("C20.R1", "in every front end the raw filter lies on every path from the render call to the normal exit, is taken exactly when raw_enabled is false, covers all nodes.raw of the whole document and replaces each by a warning")
+    rep.rule("C20.R1", "in every front end the raw filter lies on every path from the render call to the normal exit, is taken whenever raw_enabled is false, covers all nodes.raw of the whole document and replaces each by its own warning")
     fes, others = front_ends(corpus)
     if not fes:
         raise AnchorMissing("no function builds a markdown-it parser with a docutils renderer (create_md_parser(config, DocutilsRenderer))")
@@ -1007,7 +1052,7 @@ def r1_filter_postdominates(corpus: Corpus, rep: Report, tier: str):
 def _check_same_document(rep: Report, fe: FrontEnd, flt: Filter) -> None:
     """The filtered document is the one handed to the renderer (parser.options['document'] = <doc>)."""
     fi = fe.fi
-    var = fe.render_call.func.value.id  # type: ignore[union-attr]
+    var = unparse(fe.render_call.func.value)  # type: ignore[union-attr]
     given = None  # (node, value expr)
     for n in fi.local_nodes():
         if isinstance(n, ast.Assign) and len(n.targets) == 1:
@@ -1942,6 +1987,12 @@ def mutants(corpus: Corpus):
                 vn = lv_.target.id
                 out.append(Mutant("c20-filter-skips-by-derived-text", "C20.R1", dm.rel, splice(dm.src, wst, f"text = {vn}.astext().strip()\n{wi}if text.startswith('<!--') and text.endswith('-->'):\n{wi}    continue\n{wi}" + segment(dm.src, wst)), expect="raw filter|every-node"))
                 out.append(Mutant("c20-filter-skips-by-config", "C20.R1", dm.rel, splice(dm.src, wst, f"if config.gfm_only:\n{wi}    continue\n{wi}" + segment(dm.src, wst)), expect="raw filter|every-node"))
+        # 3e. the message is created once and shared by all replaced nodes
+        lp_ = find_node(parse, lambda n: isinstance(n, ast.For) and "nodes.raw" in unparse(n.iter))
+        if wst is not None and lp_ is not None and lp_.lineno <= wst.lineno <= lp_.end_lineno:
+            # build: <warning assignment>; <loop with the assignment replaced by pass>
+            loop_src = segment(dm.src, lp_).replace(segment(dm.src, wst), "pass", 1)
+            out.append(Mutant("c20-filter-shared-message-hoisted", "C20.R1", dm.rel, splice(dm.src, lp_, segment(dm.src, wst) + "\n" + indent_of(parse, lp_) + loop_src), expect="one-message-per-node", canary=True))
         # 4. extra condition
         out.append(Mutant("c20-filter-extra-condition", "C20.R1", dm.rel, splice(dm.src, flt.test, segment(dm.src, flt.test) + " and not config.gfm_only"), expect="raw filter|test"))
         loop = find_node(parse, lambda n: isinstance(n, ast.For) and "nodes.raw" in unparse(n.iter))
@@ -1983,6 +2034,9 @@ def mutants(corpus: Corpus):
         swst = find_node(sparse, lambda n: isinstance(n, ast.Assign) and isinstance(n.value, ast.Call) and isinstance(n.value.func, ast.Attribute) and n.value.func.attr == "warning" and unparse(n.value.func.value).endswith("reporter") and sflt.lineno <= n.lineno <= sflt.end_lineno)
         if swst is not None:
             out.append(Mutant("c20-sphinx-filter-replacement-suppressible", "C20.R1", sm.rel, splice(sm.src, swst.value, 'create_warning(document, "Raw content disabled.", MystWarnings.NOT_SUPPORTED, line=node.line)'), expect="replacement-not-none"))
+            if sloop is not None and sloop.lineno <= swst.lineno <= sloop.end_lineno:
+                sl_src = segment(sm.src, sloop).replace(segment(sm.src, swst), "pass", 1)
+                out.append(Mutant("c20-sphinx-filter-shared-message-hoisted", "C20.R1", sm.rel, splice(sm.src, sloop, segment(sm.src, swst) + "\n" + indent_of(sparse, sloop) + sl_src), expect="one-message-per-node"))
             swi = indent_of(sparse, swst)
             sl_ = find_node(sparse, lambda n: isinstance(n, ast.For) and "nodes.raw" in unparse(n.iter))
             if sl_ is not None:
